@@ -49,3 +49,18 @@ Example C07_example :
      G; G]                      (* set_result fails with InvalidStateError, caught; notification sent *)
   in gp s = GGet /\ nth_error (kp s) 0 = Some (KDone TimedOut) /\ gather_dead s = false.
 Proof. vm_compute. repeat split; reflexivity. Qed.
+(* AsyncServer's admission gate (Model/AGate.v; tied to the code by replaying the ledger and asyncio.Condition tokens of real
+   runs): for every capacity and every history of arriving callers, emerging results, waiters resuming, waiters cancelled or
+   timing out - before or after they were notified - no caller is ever left waiting in front of free room without a wake-up
+   under way. An abandoned wait therefore never costs another caller its turn. *)
+From MpV Require Model.AGate Proof.AGateProof.
+Theorem C07_async_gate_never_starves : forall (g : AGate.cfg) (sched : list AGate.label),
+  AGate.pass_on g = true -> AGate.starving g (run AGate.step g AGate.init sched) = false.
+Proof. exact AGateProof.gate_never_starves. Qed.
+Print Assumptions C07_async_gate_never_starves.
+(* The code before repair LN (a cancelled or timed-out waiter did not pass its notification on): the statement is false. *)
+Theorem C07_async_gate_without_pass_on_refuted :
+  exists sched, AGate.starving {| AGate.cap := 1; AGate.pass_on := false |}
+                               (run AGate.step {| AGate.cap := 1; AGate.pass_on := false |} AGate.init sched) = true.
+Proof. exact AGateProof.gate_starves_without_pass_on. Qed.
+Print Assumptions C07_async_gate_without_pass_on_refuted.
